@@ -362,3 +362,17 @@ fn format_hover_for_entity<TCompilationProfile: CompilationProfile>(
     };
     format!("Object **{object_entity_name}**{description}")
 }
+
+#[cfg(isographlabs_isograph_verif)]
+pub fn verif_get_index_of_line_char(source: &str, line_char: LineChar) -> u32 {
+    get_index_of_line_char(source, line_char)
+}
+
+#[cfg(isographlabs_isograph_verif)]
+pub fn verif_find_iso_literal_extraction_under_cursor(
+    target_line_char: LineChar,
+    content: &str,
+    extracted_items: &[IsoLiteralExtraction],
+) -> Option<(IsoLiteralExtraction, u32)> {
+    find_iso_literal_extraction_under_cursor(target_line_char, content, extracted_items)
+}
